@@ -1,6 +1,6 @@
 (* PermProofs.v — sorting is a function of the multiset; nodup lists sort strictly; sorted maps are
    determined by their entries.  (Used by the C10 refinement.) *)
-From UL Require Import Bytes Subtags LangId Ext LocaleInv AbstractLocale BytesProofs SortProofs KmapProofs.
+From UL Require Import Bytes Subtags LangId Ext Likely Ops LocaleInv AbstractLocale BytesProofs SortProofs KmapProofs.
 From Coq Require Import Lia Permutation.
 Open Scope N_scope.
 
